@@ -346,8 +346,16 @@ func (cs *ContractSet) loadFile(file string, pkgPrefix string) error {
 				cl.Loop, _ = strconv.Atoi(m[1])
 				cur.Invs = append(cur.Invs, cl)
 			case "at":
-				if lm := regexp.MustCompile(`^line\s+"([^"]*)"\s+(assert|set)\b(.*)$`).FindStringSubmatch(rest); lm != nil {
-					if lm[2] == "assert" {
+				if lm := regexp.MustCompile(`^line\s+"([^"]*)"\s+(assert|assume|set)\b(.*)$`).FindStringSubmatch(rest); lm != nil {
+					if lm[2] == "assume" {
+						cl, err := cs.parseClause("assume", strings.TrimSpace(lm[3]), l)
+						if err != nil {
+							return err
+						}
+						cl.AtLine = lm[1]
+						cl.At = "@line"
+						cur.LineHooks = append(cur.LineHooks, cl)
+					} else if lm[2] == "assert" {
 						cl, err := cs.parseClause("assert", strings.TrimSpace(lm[3]), l)
 						if err != nil {
 							return err
